@@ -14,8 +14,8 @@ COQ_DIR = "C06"
 RUN_MOD = "C06.Run"
 MODEL_TARGETS = ["C06/Run.vo"]
 PROOF_TARGETS = ["C06/Lemmas.vo", "C06/Inv.vo", "C06/Spec.vo", "C06/Inv2.vo", "C06/Inv3.vo", "C06/Inv4.vo",
-                 "C06/Attr.vo", "C06/Window.vo"]
-PROPS = ["C06/Props.v"]
+                 "C06/Attr.vo", "C06/Window.vo", "C06/RefsLemmas.vo"]
+PROPS = ["C06/Props.v", "C06/PropsRefs.v"]
 ALLOWED_AXIOMS = []
 IMPL_TIMEOUT = 20.0
 COQ_SHARD = 16
@@ -1168,7 +1168,8 @@ MSGS = ["BUG-1 fix", "BUG-12 other", "BUG-2", "fix BUG-1", "Merge branch", "misc
         "subject\n\nBUG-1 only in the body", "Merge\nBUG-2"]
 TEXTS = ["BUG-1", "BUG-1", "BUG-1", "BUG", "BUG-2", "BUG-12", "nothing", "", "fix", "1"]
 REL_NAMES = ["1.2", "1.10", "1.9", "2.0", "10.250", "10.260", "9", "10", "01.2", "1-2", "1_2", "abc", "1.2-rc1", "1.2.3",
-             "2", "B7", "b7", "10.250.1", "7.x", "x.7", "1..2", "1.2/hotfix", "1.2.9", "1.2.10", "10.250.2", "1.2.3.10", "1.2.3.9"]
+             "2", "B7", "b7", "10.250.1", "7.x", "x.7", "1..2", "1.2/hotfix", "1.2.9", "1.2.10", "10.250.2", "1.2.3.10", "1.2.3.9",
+             "1.2+x", "[x]", "v(1)", "a*b"]
 
 
 # search texts "as people type them": the property says "contains the search text", so characters that mean something to
@@ -1750,16 +1751,33 @@ RULE = ("generated single-repository histories of 1-45 commits: random DAGs with
         "order), several roots, parallel tagged sub-branches, build tags (release_M_m, master+VERSION file, several per "
         "commit, junk tags) on ordinary and merge commits, 1-5 release branches with numeric-tricky / equal-key names, "
         "master and/or main, foreign refs, heads at tips, at random commits, equal to or inside another branch's history, "
-        "matching messages at random commits (text in the subject or only in the body), 10 search texts incl. the empty one, "
+        "matching messages at random commits (text in the subject or only in the body), 10 plain search texts incl. the empty "
+        "one and (30%) search texts with characters that mean something to a regular expression / glob / LIKE pattern "
+        "( ) [ ] . * + ? | ^ $ \\ { } % _, leading / trailing blanks, a line break, upper / lower case, non-ASCII, together with "
+        "near-miss messages that tell the literal reading from the other readings (fix(parser) / fixparser, v1.2 / v1x2, "
+        "now? / no, [WIP] / W, ...), "
         "release names that differ only in the third / fourth number, commit times inside (and 6% outside, "
         "model-only) the 30-day window; sessions: ONE ReposCollection asked for 2-4 reports while the mock repository changes in "
         "between (build tags appear on existing commits, commits are pushed, branches merged / reset / added / removed, "
         "text changes, sync() on half of the steps), every report compared with the model's report of the state at that "
-        "moment; plus BranchName sort-item / cmp cases.  Non-trivial = a report with >= 2 builds "
+        "moment; 30% of the reports and 35% of the sessions are made on a repository whose refs are REAL FILES: the harness "
+        "writes a '.git' directory (packed-refs text + loose ref files: refs packed / loose / both with a stale packed value, "
+        "annotated tags with '^' peeled lines after and between the branch entries, lightweight tags, comment header or "
+        "none, CRLF, tabs, refs of other remotes incl. remotes whose name starts with ours, local branches, stash, notes, "
+        "symbolic <remote>/HEAD, remote / branch names with metacharacters) and the library's own GitRepo.iter_refs reads it; "
+        "plus 150 cases of the refs layer alone (GitRepo.iter_refs over several prefix sets, _iter_packed_refs, "
+        "make_branch_refs_map, make_buildtags_map) of which 40% on deliberately ill-formed packed-refs texts (stray / "
+        "repeated / misplaced '^' lines, wrong lengths, one-field lines, foreign comments, repeated refs, blanks); "
+        "plus BranchName sort-item / cmp cases.  Non-trivial = a report with >= 2 builds "
         "on a history of >= 4 commits (or a cmp of two different names).")
 TRUSTED_BASE = [
     "harness-side mock of git.Repo (commit/iter_refs/remotes, tree / 'VERSION'), same attribute surface as tests/mock_git.py; "
     "in a session its content is replaced in place between two reports (fresh inner objects, as GitPython re-reading a repository)",
+    "disk cases: the library's GitRepo subclassed without git.Repo.__init__ (GitPython is not installed): git_dir / remotes / "
+    "commit() come from the harness, get_ref_commit (GitPython's SymbolicReference(...).commit, used for loose refs only) is a "
+    "stand-in that returns the commit the generator meant; the ref files themselves are real files read by the library; "
+    "file-system walk order (Path.glob) is canonicalised by sorting the loose refs; ASCII ref files only",
+    "str.strip / str.split(None, 1) white space = the set modelled by Model.is_space; text-mode line iteration = split at LF / CR",
     "build tags reach the model already parsed: (major, minor, patch, build) computed by the harness from the structured "
     "tag it renders as build_<n>_release_<M>_<m>_success / build_<n>_master_success + VERSION file; the regexes of "
     "ProjectRepo and int()/str.split() of CPython are trusted (ASCII branch names only)",
@@ -1774,11 +1792,17 @@ ASSUMPTIONS = [
     "commit times within the 30-day window (the property's quantifier); histories outside it are compared with the model only",
     "remote names whose first sort item is below 'zzzzzzzzzzzzzz' (master-last theorem states this hypothesis)",
     "every build tag resolves to integer major/minor (release_M_m in the tag or a VERSION file in the commit)",
+    "refs theorems: branch_heads_from_ref_files assumes a packed-refs file the code accepts (first_err = None) in which every "
+    "'^' line follows a refs/tags/ line (peels_follow_tags), as git writes it; packed_refs_parse_spec and branch_head_rule "
+    "have no such hypothesis (they say what the code does with any text)",
 ]
 MODELLED = ("ak/ghist.py: ProjectRepo.iter_release_branches, BranchName, RGraph.__init__ (single repository), "
             "_read_branch, _mk_rcommits, _find_new_rcommits_in_build, not-merged pseudo build, get_builds_numbers (sorting), "
-            "RBranch.get_rbuilds_list, RBuild.get_printable_rcommits; not modelled: GitRepo ref-file parsing, regex tag "
-            "parsing, components/bumps, report rendering (the printed report is checked against the data by the oracle only)")
+            "RBranch.get_rbuilds_list, RBuild.get_printable_rcommits; GitRepo._iter_packed_refs / iter_refs (+ the scope of "
+            "_iter_refs_files), ProjectRepo.make_branch_refs_map, make_buildtags_map up to parse_buildtag, the head lookup of "
+            "RGraph.__init__ (coq/C06/Refs.v); not modelled: regex tag parsing (which names are build tags and their numbers "
+            "arrive as a table), GitPython (get_ref_commit, commit objects), components/bumps, report rendering (the printed "
+            "report is checked against the data by the oracle only)")
 TECHNIQUE = ("Coq proofs on a hand-written executable Gallina model of the single-repository part of ak/ghist.py: "
              "an induction principle for the outer DFS (Inv3.visit_ind), a reduction invariant (the RCommit graph is sound and "
              "complete for reachability, Inv3.GI), an exploration lemma for the inner DFS (Inv4.find_new_explore), a per-branch "
@@ -1798,10 +1822,19 @@ LEVEL_TEXT = ("partial (model-level proof + correspondence).  THEOREMS, for ever
               "traversals never run out of fuel; attribution_refuted / not_merged_char_refuted = the unguarded statement is false "
               "(witness in corpus); window_reads_all_branches = inside the 30-day window no branch is skipped; branch_order(+_numeric), "
               "branches_sorted, master_last (strict total order on keys, numeric-aware, master last); only_matching, at_most_once "
-              "(every history); report_ok_spec (the executable checker decides exactly the statement).  ONLY TESTED (correspondence "
+              "(every history); report_ok_spec (the executable checker decides exactly the statement); search_predicate_spec (the "
+              "predicate is plain substring containment, every character literal).  REF FILES (PropsRefs.v, model Refs.v): "
+              "packed_refs_parse_spec (the coded loop = the entry-wise reading of the lines, or the error of the first refused line), "
+              "ref_line_yields_its_pair, peeled_line_is_local (a '^' line changes only the ref it follows), "
+              "peeled_lines_never_change_branches, ref_line_text / peeled_line_text (text of a line -> its class), "
+              "iter_refs_one_prefix, branch_head_rule (loose file wins, else the LAST packed entry), branch_heads_from_ref_files.  "
+              "ONLY TESTED (correspondence "
               "model vs implementation + oracle on ~750 generated histories per quick run): that the hand model is the code; labels "
               "of tagged builds, order of builds / commits inside a branch, the printed report, tag parsing; that a report made by a "
-              "long-lived collection depends only on the repository state at that moment (session cases: the model is a pure function).")
+              "long-lived collection depends only on the repository state at that moment (session cases: the model is a pure function); "
+              "that the report made from real ref files is the report of the refs those files denote (disk cases: the model reads "
+              "the same texts through Refs.v; the oracle reads them with its own reference reader ref_semantics); GitPython's part "
+              "(get_ref_commit, symbolic refs) is a stand-in.")
 LEVEL_NOTE = ("Trusted: Coq kernel + vm_compute; the hand model's fidelity (checked by correspondence on every run, not proved); the "
               "harness mock repository; the ast extractor of the constants.  All theorems are about the model; the statement "
               "(Spec.branch_ok) is tied to an executable checker by report_ok_spec and that checker is evaluated against the "
